@@ -378,6 +378,53 @@ def kind_c(report, tier, seed):
     evals += 4
     if not (cold == warm == cold2 == {(0,): 10.0, (1,): 3.0}) or other != {(0,): 15.0, (1,): 2.0} or hits < 1:
         report.violation("cache:warm-vs-cold", dict(what=f"cold {cold}, warm {warm}, cold again {cold2}, other problem {other}, cache hits {hits}"), True)
+    # the generated text is a function of the request alone - not of what this process did before: other requests for the
+    # same problem with the kinds in another order or repeated, a JIT compilation in between
+    def _defs(text, lang):
+        import re as _re
+
+        pat = r"^int32_t (\w+)\(" if lang == Language.c else r'^define i32 @"?(\w+)"?\('
+        return _re.findall(pat, text, _re.M)
+
+    hp = make_problem(parse_assignment("y(i) = A(i,j) * x(j)").unwrap(), {"A": parse_format("ds").unwrap(), "y": parse_format("s").unwrap()}).unwrap()
+    KT = KernelType
+    for lang in (Language.c, Language.llvm):
+        try:
+            first = {}
+            for kinds in ([KT.assemble, KT.compute], [KT.compute, KT.assemble], [KT.compute], [KT.compute, KT.compute], [KT.evaluate, KT.compute, KT.assemble]):
+                if lang == Language.llvm and len(set(kinds)) != len(kinds):
+                    continue  # llvmlite refuses two functions of one name: a repeated kind is only printable as C
+                text = generate_code(hp, list(kinds), lang).unwrap()
+                evals += 1
+                names = _defs(text, lang)
+                if names != [k.name for k in kinds]:
+                    report.violation(f"history:kind-order:{lang.name}:{'+'.join(k.name for k in kinds)}"[:140],
+                                     dict(what=f"requested kernel kinds {[k.name for k in kinds]} (after other requests for the same problem in this process), the text defines {names}", language=lang.name), True)
+                first[tuple(kinds)] = text
+            if lang == Language.llvm:
+                # the same request in a fresh interpreter that never compiled anything
+                snippet = ("import sys; sys.path[:0] = %r; from tensora.generate import generate_code, Language; from tensora.kernel_type import KernelType; "
+                           "from tensora.problem import make_problem; from tensora.expression import parse_assignment; from tensora.format import parse_format; "
+                           "p = make_problem(parse_assignment('y(i) = A(i,j) * x(j)').unwrap(), {'A': parse_format('ds').unwrap(), 'y': parse_format('s').unwrap()}).unwrap(); "
+                           "sys.stdout.write(generate_code(p, [KernelType.evaluate, KernelType.compute, KernelType.assemble], Language.llvm).unwrap())") % ([q for q in sys.path if q],)
+                fresh = subprocess.run([sys.executable, "-c", snippet], capture_output=True, text=True, timeout=600)
+                evals += 1
+                mine = first[(KT.evaluate, KT.compute, KT.assemble)]
+                if fresh.returncode == 0 and fresh.stdout != mine:
+                    report.violation("history:fresh-process-vs-this-process:llvm", dict(what="the LLVM text of a request differs between a fresh interpreter and this process (which has compiled kernels before)",
+                                                                                         first_lines_fresh=fresh.stdout.splitlines()[:8], first_lines_here=mine.splitlines()[:8]), True)
+                elif fresh.returncode != 0:
+                    report.undecide(f"fresh-process generation failed: {fresh.stderr[-200:]}")
+            evaluate("y(i) = A(i,j) * x(j)", "d", A=A, x=x)  # a JIT compilation in between
+            for kinds, text in first.items():
+                again = generate_code(hp, list(kinds), lang).unwrap()
+                evals += 1
+                if again != text:
+                    report.violation(f"history:after-jit:{lang.name}:{'+'.join(k.name for k in kinds)}"[:140],
+                                     dict(what="the same request gives a different text after an unrelated evaluate() in the same process", language=lang.name,
+                                          first_lines_before=text.splitlines()[:6], first_lines_after=again.splitlines()[:6]), True)
+        except Exception as e:  # noqa: BLE001
+            report.undecide(f"history cases ({lang.name}) could not run: {type(e).__name__}: {e}")
     # the cache is invisible: a result obtained earlier from a cached kernel is not altered by later calls of the same
     # kernel (outputs of order 0, 1 and 2; dense and compressed; the earlier result read again AFTER the later call)
     from tensora import tensor_method
